@@ -51,7 +51,7 @@ public:
 	const Bytes *data = nullptr;
 	size_t pos = 0;
 	int64_t trunc = -1, errat = -1, skipfail = -1;
-	int seekerr = 0, skippast = 0, endless = 0;
+	int seekerr = 0, skippast = 0, endless = 0, erronce = 0, errerrno = 5;
 	uint64_t reads = 0, skips = 0, bytes = 0, eof_reads = 0, seeks = 0;
 	bool closed = false, err_fired = false, eof_hit = false;
 	int fd = -1;               // simulated descriptor when opened as a FILE
@@ -91,6 +91,7 @@ struct Sim {
 	int open_handles = 0;
 	int64_t write_fail_at = -1;     // F-WRITE: output byte count at which writes start failing
 	int write_errno = 28;
+	int write_fail_once = 0;        // the refusal is transient: one write call is cut short, later ones succeed
 	uint64_t out_written = 0;
 	int out_buf = 0;                // 0 default, 1 unbuffered, n>1 buffer size
 	bool fdopen_fail = false;
